@@ -8,6 +8,7 @@ package c13
 
 import (
 	"encoding/json"
+	"errors"
 	"fmt"
 	"net"
 	"os"
@@ -30,6 +31,7 @@ type resp struct {
 	ID    int  `json:"id"`
 	OK    bool `json:"ok"`
 	Chain bool `json:"chain"`
+	Cerr  bool `json:"cerr"` // the consumer hit by this response returns an error
 }
 type prog struct {
 	Pre   int      `json:"pre"`
@@ -63,7 +65,30 @@ func (c *consumer) OnMessageResponse(body []byte) error {
 		send(c.tw, c.conn, tag, c.mk(tag))
 	}
 	c.tw.Emit(tracefmt.Rec{"ev": "deliverret", "tag": c.tag})
+	return consumerErr(body)
+}
+
+// consumerErr: the response asks the consumer to fail (its error goes to the caller only).
+func consumerErr(body []byte) error {
+	if len(body) >= 4 && body[3] == 1 {
+		return errors.New("verif: consumer rejects the response")
+	}
 	return nil
+}
+
+// respBody is the unique body of the k-th response of a program.
+func respBody(r resp, k int) []byte {
+	if !r.OK {
+		return nil
+	}
+	b := []byte{byte(r.ID), byte(k), 0, 0}
+	if r.Chain {
+		b[2] = 1
+	}
+	if r.Cerr {
+		b[3] = 1
+	}
+	return b
 }
 
 func send(tw *tracefmt.Writer, conn proxy.LoginPhaseConnection, tag string, c *consumer) {
@@ -146,13 +171,7 @@ func TestSchedules(t *testing.T) {
 			})
 			for k, r := range p.Resps {
 				yield()
-				var body []byte
-				if r.OK {
-					body = []byte{byte(r.ID), byte(k + 1), 0}
-					if r.Chain {
-						body[2] = 1
-					}
-				}
+				body := respBody(r, k+1)
 				tw.Emit(tracefmt.Rec{"ev": "resp", "id": r.ID, "ok": r.OK, "body": tracefmt.Bytes(body)})
 				_ = v.Response(r.ID, r.OK, body)
 			}
